@@ -285,9 +285,19 @@ func c18history(v *verifrt.T, script []c18step) {
 			got = append(got, c18decode(v, raw)...)
 		}
 		v.Assert(len(got) == len(expected), "C18.changes.exactly-one-notification-per-transition")
+		// the notifications of this operation follow those of the earlier ones (order across
+		// operations); the subscriptions a disconnect ends all end at once, so among themselves
+		// they may be reported in any order
+		used := make([]bool, len(expected))
 		for j := seen; j < len(got) && j < len(expected); j++ {
-			e := expected[j]
-			v.Assert(got[j].event == e.event && got[j].channel == e.channel && got[j].id == e.id && got[j].user == e.user, "C18.changes.content-and-order")
+			matched := false
+			for k := seen; k < len(expected) && !matched; k++ {
+				e := expected[k]
+				if !used[k] && got[j].event == e.event && got[j].channel == e.channel && got[j].id == e.id && got[j].user == e.user {
+					used[k], matched = true, true
+				}
+			}
+			v.Assert(matched, "C18.changes.content-and-order")
 		}
 		seen = len(got)
 	}
